@@ -20,7 +20,7 @@ from ..common import workdir, rm_workdir, seed, MachineryError
 
 INVS = ['StartsAndEnds', 'TotalEqualsBytes', 'DeclaredEqualsExtent', 'PadOnlyZeros', 'DataPaddingBitsZero',
         'EvenUpToEdition3', 'HonourRefusesShorter', 'HonourFillsLonger', 'ReaderConsumesExactly',
-        'ReaderNeverFailsOnWritten', 'ShortDeclaredIsError', 'Emit']
+        'ReaderNeverFailsOnWritten', 'ShortDeclaredIsError', 'ReaderStartsAtMessage', 'OverrideOnlyChangesVersion', 'Emit']
 
 
 def lengths_of(msg):
@@ -49,7 +49,7 @@ def check_case(c):
     # ---------------- writer
     if c['shrink'] == 0:
         try:
-            m = Encoder(ignore_declared_length=(c['policy'] == 'recompute')).process(j)
+            m = Encoder(ignore_declared_length=(c['policy'] == 'recompute'), master_table_version=c['ovr'] or None).process(j)
             got = m.serialized_bytes
         except PyBufrKitError:
             got = None
@@ -98,6 +98,9 @@ def check_case(c):
             return (('reader', 'reported-length', 'section', feat), 'section %d length %r, declared %d' % (i, ls.get(i), c['written'][i - 1]))
     if d.length.value != c['total']:
         return (('reader', 'reported-length', 'total', feat), 'total length %r, declared %d' % (d.length.value, c['total']))
+    if d.master_table_version.value != (c['ovr'] or 33):
+        return (('reader', 'master-table-version', 'differs', 'override' if c['ovr'] else 'given'),
+                'master table version %r, expected %d' % (d.master_table_version.value, c['ovr'] or 33))
     if pyb.values_of(d, 0) != list(c['bits']):
         return (('reader', 'values', 'differ', feat), 'values %r, expected %r' % (pyb.values_of(d, 0), c['bits']))
     if l2 >= 0:
@@ -138,7 +141,7 @@ def run(run):
             out = [x for c in pool.map(_work, chunks) for x in c]
         for c, bad in zip(cases, out):
             run.traces += 1
-            run.nontriv((c['ed'], c['l2'], c['nb'], c['xo'], c['policy'], tuple(c['sur']), c['totmode'], bool(c['trailing']), c['shrink']))
+            run.nontriv((c['ed'], c['l2'], c['nb'], c['xo'], c['policy'], tuple(c['sur']), c['totmode'], bool(c['trailing']), c['shrink'], bool(c['leading']), c['ovr']))
             if bad:
                 run.violation(('framing',) + tuple(bad[0]), bad[1], {'kind': 'framing', 'case': c})
         import collections
